@@ -33,6 +33,7 @@ type Config struct {
 	TimeLimit    time.Duration
 	Stubs        map[string]string
 	MapPerm      bool
+	Domain       bool
 }
 
 type Program struct {
@@ -66,6 +67,8 @@ type Worker struct {
 	steps          int64
 	forks          int64
 	maxDepth       int
+	tf             *TermFactory
+	solverDirty    bool
 }
 
 // LoadProgram loads the package under test with the harness files overlaid.
@@ -205,9 +208,18 @@ func (w *Worker) runPath(prefix []Decision) {
 		}
 	}
 	i := w.interp
-	w.solver.Reset()
+	if w.tf == nil {
+		w.tf = NewTermFactory()
+	} else {
+		w.tf.Recycle()
+	}
+	if w.solverDirty {
+		w.solver.Reset()
+		w.solverDirty = false
+	}
+	scope := w.solver.Push()
 	p := &Path{
-		w: w, f: NewTermFactory(), prefix: prefix,
+		w: w, f: w.tf, prefix: prefix,
 		domains: map[string]*dom{}, entangled: map[string]bool{},
 		inputSet: map[string]*Term{}, choices: map[string]uint64{}, reached: map[string]bool{},
 		model: map[string]uint64{}, modelValid: true,
@@ -253,6 +265,11 @@ func (w *Worker) runPath(prefix []Decision) {
 		}()
 		call(i, nil, 0, w.harnessFn, nil)
 	}()
+	if end == "solver" {
+		w.solverDirty = true
+	} else {
+		w.solver.Pop(scope)
+	}
 	for _, o := range i.oncePath {
 		delete(i.onceDone, o)
 	}
